@@ -20,6 +20,8 @@ KINDS = {
     "o0": ["gcc", "-O0"],
     "o3": ["gcc", "-O3", "-DNDEBUG"],
     "clang": ["clang", "-O2", "-DNDEBUG"],
+    "fail": ["gcc", "-O1", "-g", "-fsanitize=address,undefined", "-fno-sanitize-recover=all", "-DVERIF_FAILINJECT", "-DEDN_C_VERIF"],
+    "tsan": ["gcc", "-O1", "-g", "-fsanitize=thread"],
 }
 
 
@@ -140,7 +142,7 @@ def step_harness(log, kinds=("san", "prod")):
                 continue
             cmd = KINDS[kind] + ["-std=c11", "-msse4.2", "-w", "-I%s/include" % REPO, "-I%s/src" % REPO,
                                  "-I%s/harness" % ROOT, '-DVERIF_UNITY="%s"' % unity] + flags + \
-                  [os.path.join(ROOT, "harness", "h_main.c"), "-o", harness_path(cfg, kind) + ".new", "-lm"]
+                  [os.path.join(ROOT, "harness", "h_main.c"), "-o", harness_path(cfg, kind) + ".new", "-lm", "-lpthread"]
             procs.append((name, cfg, kind, subprocess.Popen(cmd, stdout=subprocess.PIPE, stderr=subprocess.STDOUT)))
     for name, cfg, kind, p in procs:
         out = p.communicate()[0].decode(errors="replace")
